@@ -226,7 +226,9 @@ impl<S: ShapeOps> AnySession for Sess<S> {
                         tls.push(t.clone());
                     }
                 }
-                self.slots.insert(slot, Slot::Mg(MergedTimeline::of(tls)));
+                // a single component goes through `impl From<T> for MergedTimeline<T>` (documented as the same thing)
+                let merged = if tls.len() == 1 && slot % 2 == 1 { MergedTimeline::from(tls.pop().unwrap()) } else { MergedTimeline::of(tls) };
+                self.slots.insert(slot, Slot::Mg(merged));
                 "ok".into()
             }
             "anim" => {
@@ -240,7 +242,7 @@ impl<S: ShapeOps> AnySession for Sess<S> {
                     let tok = w[5 + nf + i];
                     if tok == "-" { continue; }
                     match self.slots.get(&tok.parse().unwrap()) {
-                        Some(Slot::Tl(t)) => b = b.on(st_of(i), MergedTimeline::of([t.clone()])),
+                        Some(Slot::Tl(t)) => b = b.on(st_of(i), if i % 2 == 0 { MergedTimeline::of([t.clone()]) } else { t.clone().into() }),
                         Some(Slot::Mg(m)) => b = b.on(st_of(i), m.clone()),
                         _ => {}
                     }
@@ -396,6 +398,19 @@ impl Runner {
             "ease" => {
                 let e = parse_easing(w[1]);
                 w[2..].iter().map(|t| e.calc(fb(t)).to_bits().to_string()).collect::<Vec<_>>().join(" ")
+            }
+            "repcmp" => {
+                // Ord / PartialOrd / PartialEq of Repeat: `n`, `i`, or a count
+                let (a, b) = (parse_repeat(w[1]), parse_repeat(w[2]));
+                let pc = match a.partial_cmp(&b) { Some(std::cmp::Ordering::Less) => "lt", Some(std::cmp::Ordering::Equal) => "eq", Some(std::cmp::Ordering::Greater) => "gt", None => "?" };
+                let c = match a.cmp(&b) { std::cmp::Ordering::Less => "lt", std::cmp::Ordering::Equal => "eq", std::cmp::Ordering::Greater => "gt" };
+                format!("{} {} {} {} {}", pc, c, (a < b) as u8, (a == b) as u8, show_repeat(a.max(b)))
+            }
+            "posdef" => {
+                // `TimeScale::default()`
+                let ts = TimeScale::default();
+                let outs: Vec<String> = w[1..].iter().map(|t| show_pos(ts.get_position(fb(t)))).collect();
+                format!("{} {} {} {} {}", ts.get_delay().to_bits(), ts.get_cycle_duration().to_bits(), show_repeat(ts.get_repeat()), show_dur(ts.get_duration()), outs.join(" "))
             }
             "easeraw" => {
                 // the custom function itself, not wrapped in `Easing::Custom` ("a custom easing is used as given")
